@@ -124,10 +124,11 @@ const (
 	PrTickWhileReady         // tick taken while the ready list was non-empty
 	PrMultiArm               // a loop select with >= 2 ready arms
 	PrIdleAdvance            // time advanced with nothing releasable
+	PrWaitTookDone           // both Wait arms ready and the ctx.Done arm was taken
 	NumProbes
 )
 
-var ProbeNames = [...]string{"over_dispatch", "donec_full", "drain_swallowed_enqueue", "wait_left_by_ctx_loop_alive", "wait_both_arms_ready", "worker_died_replaced", "tick_while_ready", "select_multi_arm", "idle_time_advance"}
+var ProbeNames = [...]string{"over_dispatch", "donec_full", "drain_swallowed_enqueue", "wait_left_by_ctx_loop_alive", "wait_both_arms_ready", "worker_died_replaced", "tick_while_ready", "select_multi_arm", "idle_time_advance", "wait_both_arms_ready_took_ctx_done"}
 
 // Sim is one simulated execution.
 type Sim struct {
@@ -200,11 +201,11 @@ func Install() {
 			c.hookArm(key, arm)
 		}
 	}
-	scheduler.VerifWaitSelect = func(key uintptr, ctxDone func() bool) bool {
+	scheduler.VerifWaitSelect = func(key uintptr, ctxDone func() bool) int {
 		if c := cur; c != nil {
 			return c.hookWaitSelect(key, ctxDone)
 		}
-		return false
+		return scheduler.VerifWaitFree
 	}
 }
 
@@ -498,26 +499,36 @@ func (s *Sim) hookArm(key uintptr, arm int) {
 }
 
 //go:norace
-func (s *Sim) hookWaitSelect(key uintptr, ctxDone func() bool) bool {
+func (s *Sim) hookWaitSelect(key uintptr, ctxDone func() bool) int {
 	if s.abort {
-		return false
+		return scheduler.VerifWaitFree
 	}
 	sl := s.lookup()
 	sl.Key = key
 	s.park(sl, scheduler.VerifWaitSelect_)
 	if s.abort {
-		return false
+		return scheduler.VerifWaitFree
 	}
 	done := ctxDone()
 	fin := s.schedOf(key).killed
 	sl.WaitBoth = done && fin
-	if done && fin {
-		s.Probes[PrWaitBoth]++
-	}
+	sl.armPick = 0
 	if done && !fin {
 		s.Probes[PrWaitCtxLoopLive]++
 	}
-	return done && fin
+	if !(done && fin) {
+		return scheduler.VerifWaitFree
+	}
+	// both arms ready: the choice is the simulator's (0: finished arm, 1: ctx.Done arm)
+	s.Probes[PrWaitBoth]++
+	if s.Steps <= s.FairAfter && !sl.armExhausted {
+		sl.armPick = int(sl.armRaw % 2)
+	}
+	if sl.armPick == 1 {
+		s.Probes[PrWaitTookDone]++
+		return scheduler.VerifWaitHideFinished
+	}
+	return scheduler.VerifWaitHideDone
 }
 
 // ---- harness-side API (called from bubble goroutines) ----
@@ -828,6 +839,20 @@ func (s *Sim) finaliseLast() {
 	}
 	lg := &s.slots[s.lastGrant]
 	s.lastGrant = -1
+	if lg.LastSite == scheduler.VerifWaitSelect_ {
+		// record the decision in its policy-independent form
+		s.mix(uint64(lg.armPick)<<4 | 0xa)
+		if lg.armRecPos >= 0 && lg.armRecPos < len(s.Ch.Rec) {
+			s.Ch.Rec[lg.armRecPos] = uint32(lg.armPick)
+		}
+		if lg.WaitBoth {
+			s.Ch.Nontrivial++
+			if s.KeepTrace {
+				s.Trace = append(s.Trace, fmt.Sprintf("      Wait select: both arms ready, took %s", [...]string{"finished", "ctx.Done"}[lg.armPick]))
+			}
+		}
+		return
+	}
 	if lg.LastSite != scheduler.VerifLSelect {
 		return
 	}
@@ -924,7 +949,7 @@ func (s *Sim) step() bool {
 	}
 	sl := &s.slots[cand[pick]]
 	sl.lastRun = s.Steps + 1
-	if sl.Site == scheduler.VerifLSelect {
+	if sl.Site == scheduler.VerifLSelect || sl.Site == scheduler.VerifWaitSelect_ {
 		sl.armRaw, sl.armExhausted = s.Ch.raw()
 		sl.armRecPos = len(s.Ch.Rec) - 1
 		sl.armPick = 0
